@@ -1,6 +1,30 @@
 // Unity build of the library from /repo's current sources (the include path points at /repo/.../src).
+// Define VERIF_PRIVATE_ACCESS before including to read private state (never to write it).
 #pragma once
+#ifdef VERIF_PRIVATE_ACCESS
+#include <sstream>
+#include <vector>
+#include <string>
+#include <memory>
+#include <algorithm>
+#include <functional>
+#include <queue>
+#include <map>
+#include <iostream>
+#include <numeric>
+#include <cmath>
+#include <cstdint>
+#include <cstdlib>
+#include <optional>
+#include <stdexcept>
+#define private public
+#define protected public
+#endif
 #include "clipper2/clipper.h"
 #include "clipper.engine.cpp"
 #include "clipper.offset.cpp"
 #include "clipper.rectclip.cpp"
+#ifdef VERIF_PRIVATE_ACCESS
+#undef private
+#undef protected
+#endif
